@@ -31,6 +31,7 @@ class SigmaCollection:
     errors: list[SigmaError] = field(default_factory=list)
     collect_filters: InitVar[bool] = False
     resolve_references: InitVar[bool] = True
+    collect_errors: InitVar[bool] = False
     rules: list[SigmaRule | SigmaCorrelationRule] = field(default_factory=list)
     filters: list[SigmaFilter] = field(default_factory=list)
     ids_to_rules: dict[UUID, SigmaRule | SigmaCorrelationRule] = field(
@@ -45,9 +46,13 @@ class SigmaCollection:
         init_rules: list[SigmaRule | SigmaCorrelationRule | SigmaFilter],
         collect_filters: bool,
         resolve_references: bool,
+        collect_errors: bool = False,
     ) -> None:
         """
         Map rule identifiers to rules and resolve rule references in correlation rules.
+
+        With collect_errors the errors of these steps (a filter that can't be applied, a reference to
+        a missing rule) are added to the errors of the collection instead of being raised.
         """
         self.ids_to_rules = {}
         self.names_to_rules = {}
@@ -62,12 +67,19 @@ class SigmaCollection:
                 self.filters.append(rule)
             else:
                 raise TypeError(f"Object of type { type(rule) } not supported in SigmaCollection")
-        if self.filters and not collect_filters:
-            self.apply_filters(self.filters)
-        # By default resolve rule references after initialization. This can be disabled
-        # by passing resolve_references=False as an init-only parameter.
-        if resolve_references:
-            self.resolve_rule_references()
+        try:
+            if self.filters and not collect_filters:
+                # A filter that was loaded with errors is incomplete and can't be applied
+                self.apply_filters([f for f in self.filters if not (collect_errors and f.errors)])
+            # By default resolve rule references after initialization. This can be disabled
+            # by passing resolve_references=False as an init-only parameter.
+            if resolve_references:
+                self.resolve_rule_references()
+        except SigmaError as e:
+            if collect_errors:
+                self.errors.append(e)
+            else:
+                raise
 
     def apply_filters(self: Self, filters: list[SigmaFilter]) -> None:
         """
@@ -228,6 +240,7 @@ class SigmaCollection:
             errors=errors,
             collect_filters=collect_filters,
             resolve_references=resolve_references,
+            collect_errors=collect_errors,
         )
 
     @classmethod
